@@ -70,6 +70,9 @@ def find_scans(f, L, body, paths):
                     for (nm, path), v in snap.items():
                         if v is not None and path:
                             sc.pre[nm + "".join("." + h[1] for h in path)] = L.lift(v)
+                        elif v is not None and not nm.startswith("_") and v[0] == "tuple":
+                            for i_, x_ in enumerate(v[1]):
+                                sc.pre["%s.%d" % (nm, i_)] = L.lift(x_)
                         elif v is not None and not nm.startswith("_") and v[0] not in ("iter", "iter*"):
                             sc.pre[nm] = L.lift(v)
             scans[hdr] = sc
@@ -167,7 +170,11 @@ def walk_accs(root, val, body):
         yield from rec(val, "*" + root[1])
     elif root[0] == "L" and root[1] == 0:
         nm = body.local_name(root[2])
-        if isinstance(val, tuple) and val and val[0] in ("or", "and", "xor") and sym.contains(val, lambda y: y[0] == "hv"):
+        if isinstance(val, tuple) and val and val[0] == "tuple":
+            for i, x in enumerate(val[1]):
+                if isinstance(x, tuple) and x and x[0] in ("or", "and", "xor") and sym.contains(x, lambda y: y[0] == "hv"):
+                    yield "%s.%d" % (nm, i), x
+        elif isinstance(val, tuple) and val and val[0] in ("or", "and", "xor") and sym.contains(val, lambda y: y[0] == "hv"):
             yield nm, val
         else:
             yield from rec(val, nm)
